@@ -21,6 +21,7 @@ type expUnit struct {
 	DTS   int64
 	RA    bool
 	Param int
+	AUDs  int
 }
 
 func expUnits(c *media.Case, track int) []expUnit {
@@ -29,7 +30,7 @@ func expUnits(c *media.Case, track int) []expUnit {
 	tsAudio := c.Cfg.Variant == media.VarTS && !c.Tracks[track].Kind.IsVideo()
 	for i := 0; i < len(ss); i++ {
 		s := ss[i]
-		u := expUnit{Idx: i, N: 1, W: s.WriteIdx, PTS: s.PTS, DTS: s.DTS, RA: s.RA, Param: s.ParamIdx}
+		u := expUnit{Idx: i, N: 1, W: s.WriteIdx, PTS: s.PTS, DTS: s.DTS, RA: s.RA, Param: s.ParamIdx, AUDs: s.AUDs}
 		if tsAudio {
 			for i+1 < len(ss) && ss[i+1].WriteIdx == s.WriteIdx {
 				i++
@@ -124,6 +125,14 @@ func (x *Ctx) checkUnit(track int, d muxrun.DecSample, e expUnit, next *expUnit,
 	ts := &c.Tracks[track]
 	if !d.BytesOK {
 		x.fail("bytes", "bytes/"+ts.Kind.String(), "%s: track %d unit %d payload differs from what was written", where, track, e.Idx)
+	}
+	if c.Cfg.Variant != media.VarTS && ts.Kind == media.H264 {
+		// (the payload comparison leaves access unit delimiters out because the MPEG-TS writer puts its
+		// own in; an fMP4 sample is the access unit as written, delimiter included)
+		x.Stats.Add("C01.h264_delimiters_compared", 1)
+		if d.AUDs != e.AUDs {
+			x.fail("bytes", "bytes/H264-delimiter", "%s: track %d unit %d was written with %d access unit delimiter(s), the stored sample has %d", where, track, e.Idx, e.AUDs, d.AUDs)
+		}
 	}
 	if c.Cfg.Variant == media.VarTS {
 		if d.NUnits != e.N && !ts.Kind.IsVideo() {
